@@ -74,7 +74,8 @@ def variants(algo, tier):
         out.append(("svd", {"init": "svd"}, 4 if q else 8, False))
         out.append(("random", {"init": "random"}, 4 if q else 8, False))
         out.append(("einsum-random", {"init": "random", "tenalg": "einsum"}, 3 if q else 5, False))
-        out.append(("mask", {"init": "random", "mask": "MASK"}, 3 if q else 5, True))
+        # (HOOI reports sqrt(|norm^2 - ||core||^2|) also when masked: the shortcut class, sqrt(eps)-accurate on exact fits)
+        out.append(("mask", {"init": "random", "mask": "MASK"}, 3 if q else 5, False))
     elif algo == "non_negative_tucker":
         out.append(("svd", {"init": "svd"}, 3 if q else 6, True))
         out.append(("random-normalize", {"init": "random", "normalize_factors": True}, 3 if q else 6, True))
